@@ -2202,6 +2202,8 @@ static void _conn_reset(xmpp_conn_t *conn)
     conn->error = 0;
 
     conn->tls_support = 0;
+    conn->sasl_support = 0;
+    conn->compression.supported = 0;
 
     conn->bind_required = 0;
     conn->session_required = 0;
